@@ -393,6 +393,29 @@ func c02Cell(k *core.Case, ci int, exhaustive bool) {
 			k.Count("forgeries_with_the_genuine_messages_weak_fingerprint", 1)
 		}
 	}
+	// re-framing: the SK payload is cut short (length 4, 8, 20, ...) and the octets behind the cut are dressed up as a
+	// further generic payload header that covers the rest, with the SK next-payload field pointing at a cleartext
+	// type - every length field consistent, header untouched
+	for _, cut := range []int{4, 5, 8, 12, 20, 20 + icv, 36} {
+		for _, np := range []byte{0, 40, 41, 43, 33, 46, 200} {
+			if 28+cut+4 > len(p) {
+				continue
+			}
+			pp := append([]byte{}, p...)
+			pp[28] = np
+			pp[29] = 0
+			pp[30], pp[31] = byte(cut>>8), byte(cut)
+			rest := len(p) - 28 - cut
+			o := 28 + cut
+			pp[o], pp[o+1], pp[o+2], pp[o+3] = byte(k.R.Pick(0, 0, 40, 43)), 0, byte(rest>>8), byte(rest)
+			if np == 0 {
+				// chain ends after the shortened SK: the rest is trailing garbage under a correct total length
+				pp[o] = 0
+			}
+			e.judge(pp, "reframed", "SK-generic-header")
+		}
+	}
+	k.Count("reframed_sk_payloads", 1)
 	// random multi-octet edits
 	for i := 0; i < 48; i++ {
 		pp := append([]byte{}, p...)
@@ -512,7 +535,7 @@ func c02(c *core.Ctx) {
 	c.Info("assumptions", "acceptance with HMAC-collision probability (<= 2^-96) is treated as never || spies wrap the exported interface-typed fields Encr_i/Encr_r/Integ_i/Integ_r")
 	c.Family("cells-exhaustive", c.N(36*6, 36*2000), func(k *core.Case) { c02Cell(k, k.Index%36, true) })
 	c.Family("cells-sampled", c.N(36*12, 36*6000), func(k *core.Case) { c02Cell(k, k.Index%36, false) })
-	req := []string{"forgeries_with_the_genuine_messages_weak_fingerprint", "genuine_with_searched_crypto_values", "tampered_presented_with_a_held_header_object", "transport_framings_tried", "rejected_insertion", "genuine_accepted", "exhaustive_bitflip_messages", "rejected_cross-key", "rejected_reflection", "handled_as_unprotected", "rejected_short-sk-body"}
+	req := []string{"reframed_sk_payloads", "forgeries_with_the_genuine_messages_weak_fingerprint", "genuine_with_searched_crypto_values", "tampered_presented_with_a_held_header_object", "transport_framings_tried", "rejected_insertion", "genuine_accepted", "exhaustive_bitflip_messages", "rejected_cross-key", "rejected_reflection", "handled_as_unprotected", "rejected_short-sk-body"}
 	for _, pc := range allPosClasses {
 		req = append(req, "pos_"+pc)
 	}
